@@ -57,7 +57,26 @@ def sim_loop(sf):
         out.flush()
 
 
+def sched_once():
+    """One schedule in this freshly started interpreter (no zygote, no fork): lock seam, import,
+    instrumentation, run - the same steps in the same order on every start, so that even effects
+    that depend on object addresses or allocation order repeat."""
+    import json
+    import struct
+    from . import sched
+    sched.install_lock_seam()
+    sf = env.import_sut()
+    sched.instrument()
+    (n,) = struct.unpack("<Q", sys.stdin.buffer.read(8))
+    spec = pickle.loads(sys.stdin.buffer.read(n))
+    rec = sched.run(sf, spec)
+    sys.stdout.buffer.write(pickle.dumps(rec, protocol=4))
+    sys.stdout.buffer.flush()
+
+
 def main():
+    if "--sched" in sys.argv:
+        return sched_once()
     sf = env.import_sut()
     if "--once" in sys.argv:
         K, call = pickle.loads(sys.stdin.buffer.read())
